@@ -11,7 +11,7 @@ cd "$wt" && git apply "$d/patch.diff" || exit 2
 for try in 1 2 3; do
   echo "== recheck $pkg try $try" >> "$d/suite.log"
   if go test -vet=off -count=1 -timeout 60m "$pkg" >> "$d/suite.log" 2>&1; then
-    sed -i "s/^VERDICT $name: rejected.*/VERDICT $name: confirmed (demo and build as above; $pkg failed under machine load in the full run and passed alone on try $try of tools\/recheck_pkg.sh)/" "$d/confirm.log"
+    sed -i "s#^VERDICT $name: rejected.*#VERDICT $name: confirmed (demo and build as above; $pkg failed under machine load in the full run and passed alone on try $try of tools/recheck_pkg.sh)#" "$d/confirm.log"
     tail -1 "$d/confirm.log"; exit 0
   fi
 done
